@@ -160,34 +160,20 @@ func (s *scheduler) reschedule(self *thread, mayPreempt bool) {
 			}
 			panic(pathAbort{"deadlock"})
 		}
-		var next *thread
-		selfEnabled := false
-		for _, t := range en {
-			if t == self {
-				selfEnabled = true
+		// Delay-bounded scheduling: the default scheduler continues the
+		// current thread at a yield point and otherwise runs the next enabled
+		// thread in round-robin order; picking the k-th alternative instead
+		// costs k delays, and at most maxPreempt delays are spent per path.
+		order := s.rrOrder(en, self, mayPreempt)
+		next := order[0]
+		if rem := s.maxPreempt - s.preemptions; rem > 0 && len(order) > 1 {
+			n := len(order)
+			if n > rem+1 {
+				n = rem + 1
 			}
-		}
-		switch {
-		case selfEnabled && (len(en) == 1 || !mayPreempt || s.preemptions >= s.maxPreempt):
-			next = self
-		case len(en) == 1:
-			next = en[0]
-		default:
-			// put self first so that outcome 0 = "continue"
-			if selfEnabled {
-				ord := []*thread{self}
-				for _, t := range en {
-					if t != self {
-						ord = append(ord, t)
-					}
-				}
-				en = ord
-			}
-			c := s.i.P.choose(dSched, len(en))
-			next = en[c]
-			if selfEnabled && next != self {
-				s.preemptions++
-			}
+			c := s.i.P.choose(dSched, n)
+			s.preemptions += c
+			next = order[c]
 		}
 		if next == self {
 			self.blocked = nil
@@ -199,6 +185,30 @@ func (s *scheduler) reschedule(self *thread, mayPreempt bool) {
 			return
 		}
 	}
+}
+
+// rrOrder lists the enabled threads in default-scheduler order: self first
+// when it may continue, then by increasing id after self (wrapping around).
+func (s *scheduler) rrOrder(en []*thread, self *thread, selfFirst bool) []*thread {
+	var order []*thread
+	if selfFirst {
+		for _, t := range en {
+			if t == self {
+				order = append(order, t)
+			}
+		}
+	}
+	for _, t := range en {
+		if t.id > self.id {
+			order = append(order, t)
+		}
+	}
+	for _, t := range en {
+		if t.id < self.id || (t == self && !selfFirst) {
+			order = append(order, t)
+		}
+	}
+	return order
 }
 
 func (s *scheduler) switchTo(self, next *thread) {
@@ -299,9 +309,16 @@ func (s *scheduler) handoffFromDead(self *thread) {
 			}
 			panic(pathAbort{"deadlock"})
 		}
-		next := en[0]
-		if len(en) > 1 {
-			next = en[s.i.P.choose(dSched, len(en))]
+		order := s.rrOrder(en, self, false)
+		next := order[0]
+		if rem := s.maxPreempt - s.preemptions; rem > 0 && len(order) > 1 {
+			n := len(order)
+			if n > rem+1 {
+				n = rem + 1
+			}
+			c := s.i.P.choose(dSched, n)
+			s.preemptions += c
+			next = order[c]
 		}
 		s.switches++
 		s.cur = next
